@@ -450,9 +450,6 @@ Definition expect_Channel_Empty : list string :=
   [ "call c.Lock"
   ; "defer c.Unlock"
   ; "call c.initPQ"
-  ; "range c.clients {"
-  ; "call client.Empty"
-  ; "}"
   ; "for {"
   ; "select {"
   ; "case <-c.zoneLocalMsgChan:"
@@ -464,6 +461,9 @@ Definition expect_Channel_Empty : list string :=
   ; "}"
   ; "label finish:"
   ; "call c.backend.Empty"
+  ; "range c.clients {"
+  ; "call client.Empty"
+  ; "}"
   ; "return" ].
 
 (* AddClient *)
